@@ -27,6 +27,7 @@ type genCtx struct {
 	w       weights
 	nameSeq *int
 	inArg   bool // inside a call argument: break/continue cannot leave it
+	faults  bool // sprinkle (fail) host calls: every one is a possible failure point (C05)
 }
 
 type weights struct {
@@ -75,6 +76,9 @@ func (c *genCtx) tr(e node) node {
 }
 
 func (c *genCtx) intLeaf() node {
+	if c.faults && c.r.intn(4) == 0 {
+		return nApp("fail")
+	}
 	if len(c.vars) > 0 && c.r.intn(3) > 0 {
 		return nSym(pick(c.r, c.vars))
 	}
@@ -495,8 +499,12 @@ func (c *genCtx) errorForm(d int) node {
 
 // genProgram: a whole program of top-level forms for the given slice.
 func genProgram(r *rng, w weights, depth int) []node {
+	return genProgramF(r, w, depth, false)
+}
+
+func genProgramF(r *rng, w weights, depth int, faults bool) []node {
 	k, ns := 0, 0
-	c := &genCtx{r: r, k: &k, nameSeq: &ns, w: w}
+	c := &genCtx{r: r, k: &k, nameSeq: &ns, w: w, faults: faults}
 	n := 2 + r.intn(4)
 	var forms []node
 	for i := 0; i < n; i++ {
